@@ -32,6 +32,10 @@ def run(pid, tier, replay=None):
     r = vlib.run_harness([exe, str(ck.seed), sc.path("g"), "14", str(nrand), "22" if q else "32"], timeout=1800)
     m = re.search(r"^SUMMARY (\{.*\})$", r.stdout or "", re.M)
     if r.returncode != 0 or not m:
+        mh = re.search(r"^HANG (\{.*\})$", r.stdout or "", re.M)
+        if r.returncode == 96 and mh:
+            ck.violation("hang:intmath", {"what": "an integer routine did not return within its time limit", "where": mh.group(1)[:200]})
+            return ck.finish()
         raise Broken("harness failed rc=%s: %s" % (r.returncode, (r.stderr or "")[-1500:]))
     summ = json.loads(m.group(1))
     ck.part("native_sweep", **summ)
@@ -51,6 +55,9 @@ def run(pid, tier, replay=None):
         exe2 = vlib.cc_build(sc.path("intmath_d"), [os.path.join(vlib.HARNESS, "intmath_h.c"), alt] + vlib.repo_src("a.c"), sc, opt="-O2", sanitize=False)
         r2 = vlib.run_harness([exe2, str(ck.seed + 7), sc.path("d"), "4", str(nrand // 2), "20" if q else "26"], timeout=1800)
         mm = re.search(r"^SUMMARY (\{.*\})$", r2.stdout or "", re.M)
+        if r2.returncode == 96 and re.search(r"^HANG ", r2.stdout or "", re.M):
+            ck.violation("hang:intmath:digit-by-digit", {"what": "an integer routine (digit-by-digit build) did not return within its time limit"})
+            return ck.finish()
         if r2.returncode != 0 or not mm:
             raise Broken("harness (digit-by-digit build) failed rc=%s: %s" % (r2.returncode, (r2.stderr or "")[-1500:]))
         s2 = json.loads(mm.group(1))
